@@ -392,6 +392,8 @@ func (s *ReceiveStream) cancelReadImpl(errorCode qerr.StreamErrorCode) (queuedNe
 	}
 	s.cancelledLocally = true
 	if s.errorRead || s.cancelledRemotely {
+		// After a RESET_STREAM_AT, Read might still be blocked waiting for the reliable part of the stream.
+		s.signalRead()
 		return false
 	}
 	s.queuedStopSending = true
